@@ -35,6 +35,8 @@ pub enum JobKind {
     Compat,
     /// C10 small-scope enumeration (exhaustive over its grid; run index = case index)
     SnapGrid { backend: Backend, entry: Entry },
+    /// C02/C08 small-scope enumeration
+    ParentGrid { backend: Backend, entry: Entry },
 }
 
 #[derive(Clone, Debug)]
@@ -56,6 +58,7 @@ pub fn gen(kind: &JobKind, seed: u64, idx: u64, thorough: bool) -> Plan {
         JobKind::Crash { entry } => Plan::Crash(crash::gen_plan(seed, *entry, thorough)),
         JobKind::Compat => Plan::Compat(compat::gen_plan(seed, idx)),
         JobKind::SnapGrid { backend, entry } => Plan::Seq(seq::gen_snapgrid(seed, idx, *backend, *entry)),
+        JobKind::ParentGrid { backend, entry } => Plan::Seq(seq::gen_parentgrid(seed, idx, *backend, *entry)),
     }
 }
 
